@@ -146,7 +146,7 @@ func permutations(n int) [][]int {
 }
 
 var conflictKinds = []string{"dup_object", "dup_interface", "dup_union", "dup_enum", "dup_input", "overlap_boundary_field", "overlap_namespace_field",
-	"kind_collision", "kind_collision_scalar", "namespace_key_one_side", "boundary_vs_plain", "namespace_vs_boundary", "both_flags_one_side", "query_namespace_one_side"}
+	"kind_collision", "kind_collision_scalar", "namespace_key_one_side", "boundary_vs_plain", "namespace_vs_boundary", "both_flags_one_side", "query_namespace_one_side", "overlap_root_id_field", "overlap_namespace_id_field"}
 
 // injectConflict appends one conflicting definition to two service SDLs. Returns false if the kind does not apply.
 func injectConflict(r *rand.Rand, fed *federation, kind string) bool {
@@ -242,6 +242,17 @@ func injectConflict(r *rand.Rand, fed *federation, kind string) bool {
 			return false
 		}
 		a.SDL = strings.Replace(a.SDL, "type Query {", "type Query @namespace {", 1)
+	case "overlap_root_id_field":
+		// a field shaped like an entity key (id: ID!, no arguments) on a type that has no key: still one field, two owners
+		if !strings.Contains(a.SDL, "type Query {") || !strings.Contains(b.SDL, "type Query {") {
+			return false
+		}
+		addTo(a, "extend type Query { id: ID! }")
+		addTo(b, "extend type Query { id: ID! }")
+	case "overlap_namespace_id_field":
+		// the same on a namespace type that the two services reach through different links
+		addTo(a, "type NsId @namespace { id: ID! left: String }\nextend type Query { nsIdA: NsId! }")
+		addTo(b, "type NsId @namespace { id: ID! right: String }\nextend type Query { nsIdB: NsId! }")
 	case "namespace_vs_boundary":
 		if a.Schema != nil && a.Schema.Query != nil && a.Schema.Query.Fields.ForName("node") != nil {
 			return false
@@ -255,7 +266,7 @@ func injectConflict(r *rand.Rand, fed *federation, kind string) bool {
 func runMerge(cfg runCfg, pid string) error {
 	r := rand.New(rand.NewSource(cfg.seed))
 	sum := &summary{Property: pid, Seed: cfg.seed, Features: map[string]int{}, CaseInputs: map[string]interface{}{},
-		Rule: "random federation (1-4 services; boundary types shared by random subsets with single/array lookups or, for a third of the federations, some services in the former Node syntax, plain types, an interface and a union with boundary and plain members, enums with deprecated values, inputs with defaults, a custom scalar declared by several services, nested namespaces, arguments with defaults, descriptions, Mutation) split into service schemas; every one of the n! merge orders through MergeSchemas; tables after UpdateSchema with two forced poll-completion orders; 35% of cases carry ONE injected conflict (14 kinds); non-trivial = >= 2 services and >= 1 shared type, or an injected conflict"}
+		Rule: "random federation (1-4 services; boundary types shared by random subsets with single/array lookups or, for a third of the federations, some services in the former Node syntax, plain types, an interface and a union with boundary and plain members, enums with deprecated values, inputs with defaults, a custom scalar declared by several services, nested namespaces, arguments with defaults, descriptions, Mutation) split into service schemas; every one of the n! merge orders through MergeSchemas; tables after UpdateSchema with two forced poll-completion orders; 35% of cases carry ONE injected conflict (16 kinds); non-trivial = >= 2 services and >= 1 shared type, or an injected conflict"}
 	w := &caseWriter{dir: cfg.out, shard: 25, check: "check_merge_case", imports: "From V Require Import Base.Util Gql.Ast Model.Merge Corr.MergeCheck."}
 	distinct, goOnly := 0, 0
 	for ci := 0; ci < cfg.n; ci++ {
